@@ -274,6 +274,41 @@ chk("C03", "other",
     "Gallina spec model of CommonMark blocks (validated on spec examples) + refinement by HTML comparison on enumerated documents (category 'other')",
     "DESIGN.md section 4 C03")
 
+chk("C06", "other",
+    "PARTIAL. 'The documented trigger condition' is made precise by the Gallina specification Spec/RuleSpec.v: for 19 rules (MD001, MD003, MD009, "
+    "MD012, MD013, MD018, MD019, MD022, MD023, MD024, MD025, MD026, MD031, MD035, MD040, MD041, MD046, MD047, MD048) a function from the lines of the "
+    "document, the block structure the spec model CM gives them and the rule's own configuration to the lines that must be reported and the lines "
+    "about which the documentation (newdocs/src/plugins/rule_md*.md) says nothing definite. It is written from the documentation, not from the rule "
+    "implementations. Theorems (Coq, closed) are about the specification: MD013 reports a line exactly when it is longer than the limit of its "
+    "category and (unless strict) has a space past it, never in a switched-off category, monotonically in the limits when strict; MD009 exactly the "
+    "lines outside code blocks with a positive number of trailing spaces other than br_spaces; MD012 only blank lines; MD047 never on a text ending "
+    "in a newline and always at the last line otherwise; MD001 only at headings of level >= 2. That each rule implements its specification is NOT "
+    "proved: the reported lines are compared on documents of <= 3 lines over a 37-template vocabulary (headings, long lines, trailing spaces, fences, "
+    "breaks, containers), 30 000 4-line documents and the general vocabulary, under 6 configurations that move every documented configuration item, "
+    "restricted to documents of the fragment F whose block structure PyMarkdown gets right (the property's premise). Failing inputs of the pinned "
+    "tree are listed as known findings; two defects were repaired (a697cd3, f5b9cc5).",
+    "Trusted: Coq kernel, extraction + driver.ml, the specification as a reading of the documentation (stated conventions for the reported line of "
+    "multi-line constructs; open corners are never counted), the spec model CM, PyMarkdownApi.scan_string.",
+    "Gallina specification of 19 rules over the CM block structure + comparison of reported lines on enumerated documents and configurations (category 'other')",
+    "DESIGN.md section 4 C06")
+
+chk("C08", "proof",
+    "PARTIAL. Proved (Coq, closed under the global context) over the hand model Model/Replace.v of file_scan_helper.py::__apply_replacement_fix: a "
+    "token-range replacement keeps every token in front of and behind the range, in order, with only the line number changed; and for every "
+    "dictionary of pragma lines, end line and positive or negative change in the number of lines (no pragma inside the removed lines) the loop "
+    "that moves the pragma lines yields exactly the dictionary with every pragma behind the range moved by that change - none lost, overwritten or "
+    "left behind. The processing order matters: the order used before the repair f3ff20a is refuted by a vm_compute witness. The model is tied to "
+    "the code by calling __apply_replacement_fix directly on real token lists with random ranges, replacement tokens and pragma dictionaries "
+    "(vm_compute). What the fixing rules request and what the Markdown regenerator writes is NOT modelled: that a whole fix run changes style only "
+    "is decided by comparing a fingerprint (block order and nesting, text words, code lines, link targets, raw HTML and comments; heading level, "
+    "list numbers, tight/loose, emphasis markers, white space and seams between lists dropped) of the original and the fixed file through "
+    "markdown-it-py, on enumerated documents under the default rule set and under each fix-capable rule alone. Failing inputs of the pinned tree "
+    "(the two quoted in the property among them) are listed as known findings.",
+    "Trusted: Coq kernel + vm_compute, the hand model (checked by correspondence), markdown-it-py (vendored) as the independent renderer, the "
+    "fingerprint's list of documented normalisations.",
+    "Coq proof over hand model of the replacement kernel; correspondence by direct calls; fingerprint differential through an independent renderer",
+    "DESIGN.md section 4 C08")
+
 NOT_YET = {}
 
 
